@@ -11,8 +11,10 @@ import time
 import traceback
 
 ROOT = os.path.dirname(os.path.dirname(os.path.abspath(__file__)))
-EVIDENCE_DIR = os.path.join(ROOT, "evidence")
-REPLAY_DIR = os.path.join(ROOT, "replays")
+# PV_OUT redirects evidence and replay files (used when trying seeded changes in a scratch worktree)
+_OUT = os.environ.get("PV_OUT") or ROOT
+EVIDENCE_DIR = os.path.join(_OUT, "evidence")
+REPLAY_DIR = os.path.join(_OUT, "replays")
 KNOWN_FILE = os.path.join(ROOT, "known_findings.json")
 
 
@@ -219,7 +221,7 @@ def write_replay(prop, viol):
     path = os.path.join(d, sha(body)[:16] + ".json")
     with open(path, "w") as f:
         json.dump(body, f, indent=1, default=str)
-    return os.path.relpath(path, ROOT)
+    return os.path.relpath(path, _OUT)
 
 
 def check_known(prop, mod, out):
